@@ -393,12 +393,12 @@ func (r *run) newClient() *client {
 		State: r.st, Channels: ch, API: r, Handler: r, Storage: r, Hasher: r, SelfID: selfID, DiffLimit: r.w.diffLim(),
 		OnTooLong: func(id int64) {
 			r.mu.Lock()
-			r.event(tr.M{"ev": "tl", "k": "ch"})
+			r.event(tr.M{"ev": "tl", "k": "ch", "upto": r.w.produced}) // what the server holds when the gap is reported
 			r.mu.Unlock()
 		},
 		OnCommonTooLong: func(int64) {
 			r.mu.Lock()
-			r.event(tr.M{"ev": "tl", "k": "c"})
+			r.event(tr.M{"ev": "tl", "k": "c", "upto": r.w.produced})
 			r.mu.Unlock()
 		},
 	})
